@@ -85,7 +85,9 @@ type Sim struct {
 	// OnRequest, if set, is called (outside the lock) for every request after it
 	// has been logged; n is the global 0-based request index.
 	OnRequest func(n int, r *Request)
-	nreq      int
+	// Default, if set, serves requests that match no route.
+	Default Handler
+	nreq    int
 }
 
 // New creates an empty network.
@@ -227,6 +229,9 @@ func (s *Sim) RoundTrip(hr *http.Request) (resp *http.Response, err error) {
 	}
 	if e := hr.Context().Err(); e != nil {
 		return nil, e
+	}
+	if !ok && s.Default != nil {
+		h, ok = s.Default, true
 	}
 	if !ok {
 		s.mu.Lock()
